@@ -17,19 +17,29 @@ PROPERTY = "C20"
 LEVEL = "exploration"
 
 
-def one(N, m, bx, env, trials, run=None):
-    """one Solve with density m; returns (messages, points logged, distinct cells)"""
+def one(N, m, bx, env, trials, run=None, probe=False):
+    """one Solve with density m; returns (messages, points logged, distinct cells).
+    probe: the trials are made one by one and the user asks solver.evolvent for the inverse image of an arbitrary box
+    point between two iterations (a read-only query must not move the next trial off the grid)."""
     cfg = dict(N=N, box=bx, r=2.0, eps=0.0, itersLimit=trials, density=m, env=env)
     if run is None:
         run = tree.make_run(cfg, make_env(env, cfg))
     msgs = []
     try:
-        run.solve()
+        if probe:
+            lo_, up_ = box(bx, N)
+            q = np.array(lo_, dtype=float) + (np.array(up_, dtype=float) - np.array(lo_, dtype=float)) * 0.3137
+            for j in range(min(trials, 12)):
+                run.solver.evolvent.GetInverseImage(np.array(q))
+                run.step(1)
+                run.solver.evolvent.GetPreimages(np.array(q))
+        else:
+            run.solve()
     except BaseException as e:
         return [f"N={N} evolventDensity={m} box={bx} {env}: Solve raised {type(e).__name__}: {e}"], 0, 0
     lo, up = box(bx, N)
-    lo_a = np.array(lo)
-    w = np.array(up) - lo_a
+    lo_a = np.array(lo, dtype=float)
+    w = np.array(up, dtype=float) - lo_a
     cells = set()
     for i, (y, v) in enumerate(run.problem.log):
         c = (y - lo_a) / w * 2 ** m - 0.5
@@ -58,7 +68,7 @@ def history(task):
             pending = mk(seq[i + 1]) if i + 1 < len(seq) else None
             mm, n, nc = one(N, m, bx, env, trials, run=cur)
         else:
-            mm, n, nc = one(N, m, bx, env, trials)
+            mm, n, nc = one(N, m, bx, env, trials, probe=(mode == "probe"))
         pts += n
         multi += nc > 3
         done += 1
@@ -74,10 +84,10 @@ def run(ctx):
     tasks = []
     up_, down = list(range(2, 13)), list(range(12, 1, -1))
     for N in (2, 3, 4, 5):
-        for bx in BOXES:
+        for bx in BOXES + ("Z",):
             for env in ("lin", "abs13", "const"):
                 for ms in (up_, down):
-                    for mode in ("seq", "pair"):
+                    for mode in ("seq", "pair", "probe"):
                         tasks.append(dict(N=N, box=bx, env=env, trials=200 if th else 30, ms=ms, mode=mode))
     out = pmap(history, tasks, chunksize=2)
     pts = multi = solves = 0
